@@ -126,9 +126,9 @@ namespace ip {
 		{
 			try
 			{
-				post(m_io_service, [&, h = std::exchange(m_accept_handler2, nullptr)] () mutable {
+				post(m_io_service, [&ios = m_io_service, h = std::exchange(m_accept_handler2, nullptr)] () mutable {
 					h(boost::system::error_code(error::operation_aborted)
-						, ip::tcp::socket(m_io_service));
+						, ip::tcp::socket(ios));
 				});
 			}
 			catch (std::bad_alloc const&)
@@ -170,9 +170,9 @@ namespace ip {
 		{
 			m_accept_into = nullptr;
 			m_remote_endpoint = nullptr;
-			post(m_io_service, [&, h = std::exchange(m_accept_handler2, nullptr)] () mutable {
+			post(m_io_service, [&ios = m_io_service, h = std::exchange(m_accept_handler2, nullptr)] () mutable {
 				h(boost::system::error_code(error::operation_aborted)
-					, ip::tcp::socket(m_io_service));
+					, ip::tcp::socket(ios));
 			});
 		}
 		m_accept_handler = std::move(h);
@@ -199,9 +199,9 @@ namespace ip {
 		}
 		if (m_accept_handler2)
 		{
-			post(m_io_service, [&, h = std::exchange(m_accept_handler2, nullptr)] () mutable {
+			post(m_io_service, [&ios = m_io_service, h = std::exchange(m_accept_handler2, nullptr)] () mutable {
 				h(boost::system::error_code(error::operation_aborted)
-					, ip::tcp::socket(m_io_service));
+					, ip::tcp::socket(ios));
 			});
 		}
 		m_accept_handler = std::move(h);
@@ -223,9 +223,9 @@ namespace ip {
 		if (m_accept_handler2)
 		{
 			m_accept_into = nullptr;
-			post(m_io_service, [&, h = std::exchange(m_accept_handler2, nullptr)] () mutable {
+			post(m_io_service, [&ios = m_io_service, h = std::exchange(m_accept_handler2, nullptr)] () mutable {
 				h(boost::system::error_code(error::operation_aborted)
-					, ip::tcp::socket(m_io_service));
+					, ip::tcp::socket(ios));
 			});
 		}
 		m_new_socket.emplace(m_io_service);
@@ -262,9 +262,9 @@ namespace ip {
 				{
 					m_accept_into = nullptr;
 					m_remote_endpoint = nullptr;
-					post(m_io_service, [&, h = std::exchange(m_accept_handler2, nullptr)] () mutable {
+					post(m_io_service, [&ios = m_io_service, h = std::exchange(m_accept_handler2, nullptr)] () mutable {
 						h(boost::system::error_code(error::operation_aborted)
-							, ip::tcp::socket(m_io_service));
+							, ip::tcp::socket(ios));
 					});
 				}
 				return;
@@ -310,9 +310,9 @@ namespace ip {
 			{
 				m_accept_into = nullptr;
 				m_remote_endpoint = nullptr;
-				post(m_io_service, [&, h = std::exchange(m_accept_handler2, nullptr)] () mutable {
+				post(m_io_service, [&ios = m_io_service, h = std::exchange(m_accept_handler2, nullptr)] () mutable {
 					h(boost::system::error_code(error::operation_aborted)
-						, ip::tcp::socket(m_io_service));
+						, ip::tcp::socket(ios));
 				});
 			}
 		}
